@@ -85,6 +85,21 @@ def run(ctx):
                 classify=lambda a, o: "scan:changed" if o != a[1] else "scan:identity")
 
 
+    # "in particular the scan of an input in which nothing is decoded flattens to the root value unchanged": texts that contain nothing encoded / normalisable,
+    # with child-bearing indicators nested inside undecoded contexts at non-zero offsets
+    import corpus_gen
+    for _ in range(ctx.budget(150, 1500)):
+        t = corpus_gen.plain_nested(ctx.rng)
+        tr = md.scan(t)
+        ctx.evals += 1
+        fl = tr.flatten()
+        if len(list(tr)) >= 3:
+            ctx.nontrivial.add(("plain", t))
+        if fl != t:
+            ctx.violation("scan_identity", node_val(tr), f"nothing is encoded in {t!r} but its scan flattens to {fl!r}")
+    ctx.compare("flatten", [node_val(md.scan(corpus_gen.plain_nested(ctx.rng))) for _ in range(ctx.budget(40, 400))], _impl, oracle=scan_oracle, classify=lambda a, o: "scan:nested")
+
+
 def search(ctx):
     for t in gen(ctx, 200000, True):
         got = _impl(t)
